@@ -10,6 +10,8 @@
 import IcingaProofs.C09.Lemmas
 import IcingaProofs.C09.Layout
 import IcingaProofs.C09.Cycle
+import IcingaProofs.C09.Sources
+import IcingaProofs.C09.ArrayCmd
 
 namespace Icinga.C09
 
@@ -379,6 +381,63 @@ example :
              { dkey := [45, 122], value := .arr [[121], [122]], repeatKey := false, order := 1 }])
       = .ok (.argv [[47, 112], [45, 112, 51, 51, 48, 54], [45, 97], [120], [45, 122], [121], [122]]) := by decide
 
+/-- Verbatim insertion, in general (subsumes `dollar_escape`, `verbatim_insertion`, `lone_macro_verbatim` for scalar values): for
+    EVERY string — any number of macros at any positions, `$$`, any literal text — whose `$` signs pair up and whose
+    macros have scalar values `vo n` (after the recursive resolution of custom variables; whatever bytes they contain),
+    resolution without an escape function yields exactly the string's text with each macro replaced by its value and
+    `$$` by `$`: inserted values are never scanned again, nothing else is touched. -/
+theorem verbatim_insertion_general (look : Bytes → Lookup) (fuel : Nat) (vo : Bytes → Option Bytes) (s : Bytes) (syms : List Sym)
+    (hs : symLine (tokenize s) = some syms)
+    (hsc : ScalarMacros look (fun t => internalResolve look fuel false t) vo (tokenize s)) :
+    ∃ v m, internalResolve look (fuel + 1) false s = .ok (v, m) ∧ v.scalarBytes = some (fillSym vo syms) ∧
+      specExpectedElem vo s = some (fillSym vo syms) := by
+  obtain ⟨v, m, h1, h2⟩ := internalResolve_elem look fuel vo s syms hs hsc
+  exact ⟨v, m, h1, h2, specExpectedElem_of look _ vo s syms hs hsc⟩
+
+-- non-vacuity: "a=$a$;$$;$b$$a$" with a = "$x$ '", b = 7 (a Number): the `$x$` inside the value of `a` stays
+example :
+    let look := resolveMacro [{ rname := [104], vars := [([98], .num 7)], attrs := [([97], .str [36, 120, 36, 32, 39])] }]
+    internalResolve look 14 false [97, 61, 36, 97, 36, 59, 36, 36, 59, 36, 98, 36, 36, 97, 36]
+      = .ok (.str [97, 61, 36, 120, 36, 32, 39, 59, 36, 59, 55, 36, 120, 36, 32, 39], false) := by decide
+
+/-! ## Array command lines -/
+
+/-- WHOLE array command line, spec clause `array_cmd_verbatim` — for every lookup, recursion level and array of element
+    templates (any number of elements; in each any text, `$$`, any number of macros, macros inside words) whose macros
+    have scalar values — whatever bytes: quotes, blanks, newlines, `$`, backslashes, globs —: the model's resolved
+    command has exactly ONE element per element of the array, each the element's text with every value verbatim in
+    place of its macro (nothing quoted, split, merged or dropped; the result is never a shell line), which is what the
+    clause demands; and whatever an `arguments` dictionary appends, the whole argument vector still satisfies it. -/
+theorem model_array_command_meets_spec (look : Bytes → Lookup) (level fuel : Nat) (vo : Bytes → Option Bytes) (elems : List Bytes)
+    (hfuel : fuelOfLevel (level + 1 + 1) = fuel + 1) (hall : ∀ e ∈ elems, ElemOK look fuel vo e) :
+    ∃ ws, (∀ hasArgs, resolveCommand look level (.arr elems) hasArgs = .ok (.argv ws)) ∧ ws.length = elems.length ∧
+      elems.mapM (specExpectedElem vo) = some ws ∧
+      resolveArguments look level (.arr elems) none = .ok (.argv ws) ∧ specArrayCmd elems vo false ws = none ∧
+      ∀ as l, resolveArguments look level (.arr elems) (some as) = .ok (.argv l) → specArrayCmd elems vo true l = none := by
+  obtain ⟨ws, m, hws, hspec, hlen⟩ := resolveArrayElems_fill look fuel vo elems hall
+  have hcmd : ∀ hasArgs, resolveCommand look level (.arr elems) hasArgs = .ok (.argv ws) := by
+    intro hasArgs
+    cases hasArgs <;>
+      simp [resolveCommand, Cmd.raw, resolveMacros, Raw.isEmpty, hfuel, hws, bind, Except.bind, pure, Except.pure]
+  refine ⟨ws, hcmd, hlen, hspec, ?_, ?_, ?_⟩
+  · simp [resolveArguments, hcmd, bind, Except.bind, pure, Except.pure]
+  · simp [specArrayCmd, hspec]
+  · intro as l hl
+    obtain ⟨base, rs, hb, _, hl', _⟩ := resolveArguments_meets_layout look level (.arr elems) as l hl
+    rw [hcmd true] at hb
+    simp only [Except.ok.injEq, CmdOut.argv.injEq] at hb
+    subst hb
+    simp [specArrayCmd, hspec, hl']
+
+-- non-vacuity: ["/p", "-H", "$a$", "x$$$b$y"] with a = "it's $(x) *", b = "\n;": four elements, values verbatim; the clause rejects a split value
+example :
+    let look := resolveMacro [{ rname := [104], vars := [], attrs := [([97], .str [105, 116, 39, 115, 32, 36, 40, 120, 41, 32, 42]), ([98], .str [10, 59])] }]
+    resolveArguments look 0 (.arr [[47, 112], [45, 72], [36, 97, 36], [120, 36, 36, 36, 98, 36, 121]]) none
+      = .ok (.argv [[47, 112], [45, 72], [105, 116, 39, 115, 32, 36, 40, 120, 41, 32, 42], [120, 36, 10, 59, 121]]) := by decide
+example : specArrayCmd [[47, 112], [36, 97, 36]] (fun _ => some [120, 32, 121]) false [[47, 112], [120], [121]] = some .arrayCmdVerbatim := by decide
+example : specArrayCmd [[47, 112], [36, 97, 36]] (fun _ => some [120, 32, 121]) false [[47, 112], [39, 120, 32, 121, 39]] = some .arrayCmdVerbatim := by decide
+example : specArrayCmd [[47, 112], [36, 97, 36]] (fun _ => some [120, 32, 121]) true [[47, 112], [120, 32, 121], [45, 119]] = none := by decide
+
 /-! ## Missing macros -/
 
 /-- A missing optional macro drops only its argument: the other arguments resolve as if the entry
@@ -457,6 +516,200 @@ example : resolveArguments (resolveMacro []) 0 (.arr [[47, 112]])
 example : resolveArguments (resolveMacro []) 0 (.arr [[47, 112]])
     (some [{ dkey := [45, 97], value := .str [120] }, { dkey := [45, 119], value := .str [36, 110, 120, 36], required := true }])
     = .error .required := by decide
+
+/-! ## Where macro values come from: the levels, never the daemon's environment -/
+
+/-- A short macro (`$name$`, no `object.` prefix) is resolved from the given levels and the global `Vars` alone:
+    the result of the whole resolver loop — default resolvers `icinga` and `env` included — is the same whatever
+    the environment of the daemon contains (the `env` resolver is registered with `ResolveShortMacros = false`). -/
+theorem short_macro_ignores_environment (objs : List Obj) (g : List (Bytes × Val)) (env env' : List (Bytes × Bytes))
+    (n : Bytes) (hdot : DOT ∉ n) :
+    resolveMacroFull objs { globals := g, env := env } n = resolveMacroFull objs { globals := g, env := env' } n := by
+  rw [resolveMacroFull_short _ _ _ hdot, resolveMacroFull_short _ _ _ hdot]
+  rfl
+
+/-- A short macro that no level defines (no custom variable and no attribute of that name on service, host, command or
+    in the global `Vars`) is not found — whatever the daemon's environment holds under that name — and `$name$`
+    resolves to Empty with the missing report set (which drops an optional argument and fails a required one:
+    `optional_missing_drops_only_its_argument`, `required_missing_fails`). -/
+theorem undefined_short_macro_missing (objs : List Obj) (dflt : Defaults) (n : Bytes) (hdot : DOT ∉ n) (hne : n ≠ [])
+    (hd : DOLLAR ∉ n) (hundef : definedOnSomeLevel (objs ++ [dflt.icinga]) n = false) :
+    resolveMacroFull objs dflt n = .notFound ∧
+    ∀ fuel esc, internalResolve (resolveMacroFull objs dflt) (fuel + 1) esc (DOLLAR :: (n ++ [DOLLAR]))
+      = .ok (if esc then Val.str (escapeMacroShellArg .empty) else .empty, true) := by
+  obtain ⟨hnv, hall⟩ := undefined_levels _ n hundef
+  have hnf : resolveMacroFull objs dflt n = .notFound := by
+    rw [resolveMacroFull_short _ _ _ hdot]
+    exact resolveMacroIn_short_notFound _ n hnv hall
+  refine ⟨hnf, fun fuel esc => ?_⟩
+  have htok : tokenize (DOLLAR :: (n ++ [DOLLAR])) = [.lit [], .mac n, .lit []] := by
+    have := tokenize_macro [] n [] (by simp) hd
+    simpa [tokenize, tok] using this
+  simp only [internalResolve, htok]
+  exact expandMacro_notFound _ _ esc n hne hnf
+
+/-- Spec on the trace, clause `undefined_macro_missing`, ALL strings: for every configuration of the levels, every
+    environment of the daemon, every string `s` (any number of macros, any text), every recursion level and with or
+    without shell escaping — whenever the model's `InternalResolveMacros` yields a value, the missing report it yields
+    satisfies the clause as the driver evaluates it on the implementation's report: if `s` mentions at its top level
+    a short macro that no level defines, the report is set. -/
+theorem model_meets_undefined_clause (objs : List Obj) (dflt : Defaults) (fuel : Nat) (esc : Bool) (s : Bytes) (v : Val) (m : Bool)
+    (h : internalResolve (resolveMacroFull objs dflt) (fuel + 1) esc s = .ok (v, m)) :
+    specUndefined (objs ++ [dflt.icinga]) s m = none := by
+  unfold specUndefined
+  split
+  · next hc =>
+    exfalso
+    simp only [Bool.and_eq_true, List.any_eq_true, Bool.not_eq_true'] at hc
+    obtain ⟨⟨n, hn, hu⟩, hm⟩ := hc
+    simp only [undefinedShort, Bool.and_eq_true, Bool.not_eq_true', List.isEmpty_eq_false_iff] at hu
+    obtain ⟨⟨hne, hdot⟩, hundef⟩ := hu
+    have hdot' : DOT ∉ n := by simpa using hdot
+    obtain ⟨hnv, hall⟩ := undefined_levels _ n hundef
+    have hnf : resolveMacroFull objs dflt n = .notFound := by
+      rw [resolveMacroFull_short _ _ _ hdot']
+      exact resolveMacroIn_short_notFound _ n hnv hall
+    subst hm
+    rw [internalResolve] at h
+    split at h
+    · next k htok =>
+      simp only [htok, macroNames, List.mem_singleton] at hn
+      subst hn
+      rw [expandMacro_notFound _ _ esc n hne hnf] at h
+      simp at h
+    · simp only [bind, Except.bind] at h
+      cases hc : concatToks (resolveMacroFull objs dflt) (fun t => internalResolve (resolveMacroFull objs dflt) fuel false t) esc (tokenize s) with
+      | error e => simp [hc] at h
+      | ok p =>
+        obtain ⟨b, m'⟩ := p
+        simp only [hc, pure, Except.pure, Except.ok.injEq, Prod.mk.injEq] at h
+        have := concatToks_missing _ _ esc _ ⟨n, hn, hne, hnf⟩ b m' hc
+        rw [this] at h
+        simp at h
+  · rfl
+
+/-- … and a `required` argument without `set_if` whose value is such a string fails `ResolveArguments` (clause
+    `undefined_macro_missing` on G / X lines), provided the entries before it resolve. -/
+theorem required_undefined_fails (objs : List Obj) (dflt : Defaults) (level : Nat) (a : ArgSpec)
+    (hreq : requiredUndefined (objs ++ [dflt.icinga]) a = true) :
+    (∃ e, resolveArg (resolveMacroFull objs dflt) level a = .error e) := by
+  simp only [requiredUndefined, Bool.and_eq_true] at hreq
+  obtain ⟨⟨hset, hr⟩, hv⟩ := hreq
+  cases hval : a.value with
+  | empty => simp [hval] at hv
+  | arr l => simp [hval] at hv
+  | str b =>
+    simp only [hval] at hv
+    have hbne : b.isEmpty = false := by
+      cases b with
+      | nil => simp [tokenize, tok, macroNames] at hv
+      | cons c cs => rfl
+    have hrm : resolveMacros (resolveMacroFull objs dflt) (level + 1) false (.str b)
+        = internalResolve (resolveMacroFull objs dflt) (fuelOfLevel (level + 1 + 1)) false b := by
+      simp [resolveMacros, Raw.isEmpty, hbne]
+    cases hres : internalResolve (resolveMacroFull objs dflt) (fuelOfLevel (level + 1 + 1)) false b with
+    | error e => exact ⟨e, by simp [resolveArg, hset, hval, hrm, hres, bind, Except.bind, pure, Except.pure]⟩
+    | ok p =>
+      obtain ⟨v, m⟩ := p
+      have hmt : m = true := by
+        cases hf : fuelOfLevel (level + 1 + 1) with
+        | zero => rw [hf] at hres; simp [internalResolve, throw, throwThe, MonadExceptOf.throw] at hres
+        | succ f =>
+          rw [hf] at hres
+          have hm := model_meets_undefined_clause objs dflt f false b v m hres
+          simp only [specUndefined, hv, Bool.true_and] at hm
+          cases m <;> simp_all
+      subst hmt
+      exact ⟨.required, by simp [resolveArg, hset, hval, hrm, hres, hr, bind, Except.bind, pure, Except.pure, throw, throwThe, MonadExceptOf.throw]⟩
+
+/-- A check whose argument resolution fails — for whatever reason — is reported UNKNOWN with exit status 3 and no process is
+    started: the model's `ExecuteCommand` meets the trace clause `failed_not_run`. -/
+theorem failed_resolution_unknown_not_run (look : Bytes → Lookup) (cmd : Cmd) (args : Option (List ArgSpec)) (msg : Bytes) (e : Err)
+    (h : resolveArguments look 0 cmd args = .error e) :
+    ∃ cr, executeCommand look cmd args msg = .failed cr ∧ cr.state = 3 ∧ cr.exit = 3 ∧
+      specFailed (executeCommand look cmd args msg).ran cr.state cr.exit = none := by
+  refine ⟨processFinished [] 3 msg, by simp [executeCommand, h], ?_, ?_, ?_⟩ <;>
+    simp [executeCommand, h, Exec.ran, processFinished, exitToState, specFailed]
+
+/-- "A missing required macro fails the check with UNKNOWN", end to end: a `required` argument without `set_if` whose value
+    mentions a short macro that no level defines (whatever the daemon's environment holds under that name), the entries
+    before it resolving: the check is UNKNOWN (exit status 3), nothing is started, and the trace clause
+    `undefined_macro_missing` holds. -/
+theorem missing_required_macro_check_unknown (objs : List Obj) (dflt : Defaults) (cmd : Cmd) (base : CmdOut)
+    (pre post : List ArgSpec) (a : ArgSpec) (msg : Bytes)
+    (hcmd : resolveCommand (resolveMacroFull objs dflt) 0 cmd true = .ok base)
+    (hpre : ∀ x ∈ pre, ∃ o, resolveArg (resolveMacroFull objs dflt) 0 x = .ok o)
+    (hreq : requiredUndefined (objs ++ [dflt.icinga]) a = true) :
+    ∃ cr, executeCommand (resolveMacroFull objs dflt) cmd (some (pre ++ a :: post)) msg = .failed cr ∧ cr.state = 3 ∧ cr.exit = 3 ∧
+      specRequiredUndefined (objs ++ [dflt.icinga]) (pre ++ a :: post) true = none := by
+  obtain ⟨e, he⟩ := required_undefined_fails objs dflt 0 a hreq
+  have hargs : ∃ e', resolveArgs (resolveMacroFull objs dflt) 0 (pre ++ a :: post) = .error e' := by
+    induction pre with
+    | nil => exact ⟨e, by simp [resolveArgs, he, bind, Except.bind]⟩
+    | cons x xs ih =>
+      obtain ⟨o, ho⟩ := hpre x (by simp)
+      obtain ⟨e', he'⟩ := ih (fun y hy => hpre y (by simp [hy]))
+      exact ⟨e', by simp [resolveArgs, ho, he', bind, Except.bind]⟩
+  obtain ⟨e', he'⟩ := hargs
+  have hfail : resolveArguments (resolveMacroFull objs dflt) 0 cmd (some (pre ++ a :: post)) = .error e' := by
+    simp [resolveArguments, hcmd, he', bind, Except.bind]
+  obtain ⟨cr, h1, h2, h3, _⟩ := failed_resolution_unknown_not_run _ cmd _ msg e' hfail
+  exact ⟨cr, h1, h2, h3, by simp [specRequiredUndefined]⟩
+
+-- non-vacuity of `failed_not_run`: a failed resolution that started a process, or is not UNKNOWN, is rejected
+example : specFailed true 3 3 = some .failedNotRun := by decide
+example : specFailed false 0 0 = some .failedNotRun := by decide
+example : executeCommand (resolveMacro []) (.arr [[47, 112]]) (some [{ dkey := [45, 119], value := .str [36, 110, 120, 36], required := true }]) [109]
+    = .failed { state := 3, exit := 3, output := [109], perfdata := [] } := by decide
+
+-- non-vacuity: `nx` is in the daemon's environment only: `$nx$` is missing, `-w $nx$` is dropped, required: fails; `$env.nx$` reads it
+example :
+    let dflt : Defaults := { globals := [([103], .str [71])], env := [([110, 120], [76, 69, 65, 75])] }
+    let look := resolveMacroFull [{ rname := [104, 111, 115, 116], vars := [], attrs := [] }] dflt
+    internalResolve look 14 false [36, 110, 120, 36] = .ok (.empty, true) ∧
+    internalResolve look 14 false [36, 101, 110, 118, 46, 110, 120, 36] = .ok (.str [76, 69, 65, 75], false) ∧
+    internalResolve look 14 false [36, 103, 36] = .ok (.str [71], false) ∧
+    resolveArguments look 0 (.arr [[47, 112]]) (some [{ dkey := [45, 119], value := .str [36, 110, 120, 36] }]) = .ok (.argv [[47, 112]]) ∧
+    resolveArguments look 0 (.arr [[47, 112]]) (some [{ dkey := [45, 119], value := .str [36, 110, 120, 36], required := true }]) = .error .required := by decide
+-- the clause rejects an implementation that finds `nx` somewhere else
+example : specUndefined [{ rname := [104], vars := [], attrs := [] }] [45, 119, 32, 36, 110, 120, 36] false = some .undefinedMissing := by decide
+example : specRequiredUndefined [{ rname := [104], vars := [], attrs := [] }]
+    [{ dkey := [45, 119], value := .str [36, 110, 120, 36], required := true }] false = some .undefinedMissing := by decide
+
+/-- The prefixed form `$env.NAME$` is the one way to the daemon's environment: when no level is called `env`, the value
+    of the variable is found, marked non-recursive — so it is inserted verbatim and never scanned again
+    (`verbatim_insertion`, `lone_macro_verbatim` apply with this lookup). -/
+theorem env_macro_verbatim (objs : List Obj) (dflt : Defaults) (x v : Bytes) (hx : DOT ∉ x) (hxd : DOLLAR ∉ x)
+    (hobjs : ∀ o ∈ objs, o.rname ≠ sEnv) (hv : assocB dflt.env x = some v) :
+    resolveMacroFull objs dflt (sEnv ++ DOT :: x) = .found (.str v) false ∧
+    ∀ fuel, internalResolve (resolveMacroFull objs dflt) (fuel + 1) false (DOLLAR :: ((sEnv ++ DOT :: x) ++ [DOLLAR])) = .ok (.str v, false) := by
+  have hsplit : splitOn DOT [] (sEnv ++ DOT :: x) = [sEnv, x] := by
+    have := splitOn_no_sep DOT [] x hx
+    simp [sEnv, splitOn, DOT, this] at this ⊢
+  have hin : ∀ os : List Obj, (∀ o ∈ os, o.rname ≠ sEnv) → resolveMacroIn os (sEnv ++ DOT :: x) sEnv [x] = .notFound := by
+    intro os hos
+    induction os with
+    | nil => rfl
+    | cons o os ih =>
+      have h1 : o.resolve (sEnv ++ DOT :: x) sEnv [x] = none := by
+        have : sEnv ≠ o.rname := fun e => hos o (by simp) e.symm
+        have hne : sEnv ≠ [] := by simp [sEnv]
+        simp [Obj.resolve, this, hne]
+      simp only [resolveMacroIn, h1]
+      exact ih (fun o' ho' => hos o' (by simp [ho']))
+  have hfound : resolveMacroFull objs dflt (sEnv ++ DOT :: x) = .found (.str v) false := by
+    have hall : ∀ o ∈ objs ++ [dflt.icinga], o.rname ≠ sEnv := by
+      intro o ho
+      simp only [List.mem_append, List.mem_singleton] at ho
+      rcases ho with ho | rfl
+      · exact hobjs o ho
+      · simp [Defaults.icinga, sIcinga, sEnv]
+    simp [resolveMacroFull, hsplit, hin _ hall, envResolve, joinDots, hv]
+  refine ⟨hfound, fun fuel => ?_⟩
+  have hmd : DOLLAR ∉ sEnv ++ DOT :: x := by
+    simp [sEnv, DOT, DOLLAR]
+    exact hxd
+  exact lone_macro_verbatim _ fuel _ v hmd (by simp [sEnv]) hfound
 
 /-! ## Exit status and plugin output -/
 
